@@ -29,6 +29,9 @@ pub struct Case {
     /// and discardable as trees); re-entrant and dangling links are error items
     #[serde(default)]
     pub follow: bool,
+    /// a maximum depth (from the directory given to the walk) for the underlying walk
+    #[serde(default)]
+    pub max_depth: Option<usize>,
 }
 
 pub fn gen_under(t: &mut Tape, tree: &TreeSpec, base: &Base) -> Under {
@@ -99,14 +102,16 @@ impl Property for C13 {
         384
     }
     fn required_counters(&self) -> Vec<&'static str> {
-        vec!["runs", "tree_discard_by_negation", "tree_discard_demanded_by_own_reading", "glob_component_discard_required", "read_target_runs", "tree_verdict_on_followed_link", "tree_verdict_on_link", "tree_discard_with_descendants", "two_tree_verdicts_same_directory", "tree_verdict_on_file", "tripwires_armed", "discard_on_walk_root", "file_verdict_on_directory"]
+        vec!["runs", "depth_bounded_runs", "tree_discard_by_negation", "tree_discard_demanded_by_own_reading", "glob_component_discard_required", "read_target_runs", "tree_verdict_on_followed_link", "tree_verdict_on_link", "tree_discard_with_descendants", "two_tree_verdicts_same_directory", "tree_verdict_on_file", "tripwires_armed", "discard_on_walk_root", "file_verdict_on_directory"]
     }
     fn decode(&self, t: &mut Tape) -> Case {
         let tree = gen_tree(t, &TreeCfg { links: true, ..TreeCfg::default() });
         let base = if t.chance(50) { gen_base(t, &tree) } else { Base::Abs };
         let under = gen_under(t, &tree, &base);
         let layers = rebase_layers(gen_layers(t, &tree, 0), &base);
-        Case { tree, base, under, layers, tripwire: t.chance(128), follow: t.chance(70) }
+        let (tripwire, follow) = (t.chance(128), t.chance(70));
+        let max_depth = if t.chance(56) { Some(1 + t.below(4)) } else { None };
+        Case { tree, base, under, layers, tripwire, follow, max_depth }
     }
     fn directed(&self) -> Vec<Case> {
         let d = |p: &str| Node { path: p.into(), kind: Kind::Dir, unreadable: false };
@@ -119,6 +124,7 @@ impl Property for C13 {
             layers: vec![Layer::Table(vec![("a/x".into(), Verdict::Tree)]), Layer::Table(vec![("a/x".into(), Verdict::Tree)])],
             tripwire: false,
             follow: false,
+            max_depth: None,
         }]
     }
     fn shrink(&self, c: &Case) -> Vec<Case> {
@@ -144,6 +150,9 @@ impl Property for C13 {
         }
         if c.tripwire {
             out.push(Case { tripwire: false, ..c.clone() });
+        }
+        if c.max_depth.is_some() {
+            out.push(Case { max_depth: None, ..c.clone() });
         }
         if !matches!(c.under, Under::Path) {
             out.push(Case { under: Under::Path, ..c.clone() });
@@ -206,8 +215,17 @@ impl Property for C13 {
                 }
             }
         }
-        let entries = underlying_entries(&base_abs, glob_rt.as_ref(), case.follow, None);
-        let beh = WalkBehavior { link: if case.follow { wax::walk::LinkBehavior::ReadTarget } else { wax::walk::LinkBehavior::ReadFile }, ..WalkBehavior::default() };
+        // a depth bound counts components below the directory given to the walk (C15), the
+        // invariant prefix of a glob included
+        let entries: Vec<(String, bool)> = underlying_entries(&base_abs, glob_rt.as_ref(), case.follow, None)
+            .into_iter()
+            .filter(|(r, _)| case.max_depth.map_or(true, |m| r.split('/').filter(|c| !c.is_empty()).count() <= m))
+            .collect();
+        let mut beh = WalkBehavior { link: if case.follow { wax::walk::LinkBehavior::ReadTarget } else { wax::walk::LinkBehavior::ReadFile }, ..WalkBehavior::default() };
+        if let Some(m) = case.max_depth {
+            beh.depth = wax::walk::DepthMax(m).into();
+            st.count("depth_bounded_runs");
+        }
         // under ReadTarget re-entrant and dangling links are error items also on a fault-free tree
         let link_errors: std::collections::BTreeSet<String> = if case.follow {
             let (start, prefix) = match &glob_rt {
